@@ -27,13 +27,15 @@ TraceLog == ndJsonDeserialize(IOEnv.TRACE)
 
 VARIABLES l,        \* index of the next event to explain
           ackseen,  \* [Clients -> highest version whose ack(ok) EVENT has been consumed]
-          ackclose  \* ackseen at the close.start event: the writes acknowledged before Close was invoked
-tvars == <<vars, l, ackseen, ackclose>>
+          ackclose, \* ackseen at the close.start event: the writes acknowledged before Close was invoked
+          closing   \* Close has been invoked (LazyAOFWriter refuses new writes from that moment, before the close
+                    \* command is served)
+tvars == <<vars, l, ackseen, ackclose, closing>>
 
 Ev == TraceLog[l]
 IsEv(name) == l <= Len(TraceLog) /\ Ev.e = name
 Consume == l' = l + 1
-Keep == UNCHANGED <<ackseen, ackclose>>
+Keep == UNCHANGED <<ackseen, ackclose, closing>>
 
 \* ---- client events --------------------------------------------------------
 T_Journaling ==
@@ -51,11 +53,12 @@ T_Ack ==
   /\ IF Ev.ok THEN acked[Ev.c] = Ev.v /\ cver[Ev.c] = Ev.v
               ELSE acked[Ev.c] < Ev.v        \* a refused call acknowledges nothing
   /\ ackseen' = IF Ev.ok THEN [ackseen EXCEPT ![Ev.c] = Ev.v] ELSE ackseen
-  /\ UNCHANGED <<vars, ackclose>>
+  /\ UNCHANGED <<vars, ackclose, closing>>
 
 T_CloseStart ==
   /\ IsEv("close.start") /\ Consume
   /\ ackclose' = ackseen
+  /\ closing' = TRUE
   /\ UNCHANGED <<vars, ackseen>>
 
 \* ---- writer commands (linearised in the writer goroutine) ----------------
@@ -168,15 +171,22 @@ S_TickFlush ==
         /\ q' = SubSeq(buf \o q, k + 1, Len(buf \o q))
   /\ UNCHANGED <<cpc, cver, memv, acked, shadow, mode, wclosed, wdead, ackpre, snap, apc, img, pre, pend, nadmin, nflush, dev>>
 
+\* a write that had started when Close was invoked is refused by the closing writer: nothing queued, nothing applied
+C_RefusedClosing(c) ==
+  /\ closing /\ cpc[c] = "sending"
+  /\ cpc' = [cpc EXCEPT ![c] = "idle"]
+  /\ pre' = pre \ {c}
+  /\ UNCHANGED <<cver, memv, acked, q, buf, shadow, mode, wclosed, wdead, ackpre, file, snap, apc, img, pend, nadmin, nflush, dev>>
+
 Silent ==
   /\ l <= Len(TraceLog)
   /\ UNCHANGED l
-  /\ \/ \E c \in Clients : C_Enqueue(c) \/ C_Apply(c)
+  /\ \/ \E c \in Clients : C_Enqueue(c) \/ C_Apply(c) \/ C_RefusedClosing(c)
      \/ S_TickFlush \/ W_Dead
      \/ (wclosed /\ (S_Truncate \/ R_Replace \/ A_End("snap") \/ A_End("rw") \/ A_Fail))   \* command refused after Close: no cmd event
      \/ A_Capture("snap")
 
-TraceInit == Init /\ l = 1 /\ ackseen = Zero /\ ackclose = Zero
+TraceInit == Init /\ l = 1 /\ ackseen = Zero /\ ackclose = Zero /\ closing = FALSE
 TraceNext ==
   \/ T_Ack \/ T_CloseStart
   \/ (Keep /\ (\/ T_Journaling \/ T_Journaled
